@@ -341,7 +341,7 @@ def _chr(v):
 # enum model
 
 NAMES = ["A", "B", "C", "D", "F", "G", "H", "J", "L", "M", "P", "Q", "S", "U", "W", "X", "Y", "Z",
-         "Error", "Ok", "Err", "None", "Some", "Result", "TryFrom", "Self_", "val", "Enum", "Default", "Into", "r#type", "r#match"]
+         "Error", "Ok", "Err", "None", "Some", "Result", "TryFrom", "Self_", "val", "Enum", "Default", "Into"]
 RAW_NAMES = ["r#type", "r#match", "r#fn"]
 
 # (type text, value for instantiation with a local lifetime, value for 'static), by what they need
@@ -571,6 +571,8 @@ def gen_spec(rng, k, nvar=None):
     names = rng.sample(NAMES, min(n, len(NAMES)))
     while len(names) < n:
         names.append("V%d" % len(names))
+    if rng.random() < 0.12:
+        names[rng.randrange(n)] = rng.choice(RAW_NAMES)
     pools = list(FT_PLAIN)
     if spec.lt:
         pools += FT_LT
@@ -880,7 +882,10 @@ def check_case(ctx, c, res):
         diags = res.compile_errors[c.id]
         key = classify_compile_error(spec, diags)
         if key is None:
-            codes = sorted(set((d.get("code") or {}).get("code") or "-" for d in diags))
+            # name the class after the diagnostics raised inside the derive's expansion when there are any
+            # (the rest is usually fallout, e.g. the unsatisfied `TryFrom` bound of the scanning function)
+            own = [d for d in diags if any("TryFrom" in n for n in common.diag_derives(d)) or "proc-macro derive panicked" in common.diag_text(d)]
+            codes = sorted(set((d.get("code") or {}).get("code") or ("derive-panicked" if "panicked" in d.get("message", "") else "nocode") for d in (own or diags)))
             key = "compile:%s:%s" % ("generic" if spec.generic else "plain", "+".join(codes)[:40])
         ctx.violate(key, "enum with #[try_from(repr)] does not compile (%s): %s" % (meta["what"], l2.err_text(diags, 1)[:600]),
                     case=meta, items=c.items, errors=l2.err_text(diags, 4))
